@@ -14,6 +14,7 @@ def run(ctx):
     # two conjuncts are also invariants of Poller.tla above (FlagMeansWake, ClearMeansSeen); TLC cross-check for q <= 4
     vlib.tlc_model_check(ctx, "Wakeup", "Wakeup.cfg", timeout=300)
     vlib.apalache_inductive(ctx, "Wakeup", cinit="CInit", init="Init", ind_init="IndInit", ind_inv="IndInv", goal="NoLostWakeup")
+    vlib.tlaps_prove(ctx, "WakeupProof", deps=("Wakeup",))
     graphs = [("Poller_replayQ.cfg", 0)] + ([("Poller_replay2.cfg", 0 if ctx.thorough else 1500)])
     for cfg, maxe in graphs:
         g = vlib.tlc_model_check(ctx, "MCPoller", cfg, dump="g", timeout=900)
